@@ -35,20 +35,23 @@ def gen_cases(rng, tier):
         # string form: every name (declared, skipped, other spellings, unknown)
         for n in names:
             add(x, 'x = "%s"' % n)
+            if recvlib.w(n) != n:
+                add(x, 'x = "%s"' % recvlib.w(n))    # inside a string, `r#` is not a spelling of the name
         # list form: arity 0..3 and every shape of the single item
         add(x, "x()")
         add(x, 'x("lit")')
         add(x, "x(7)")
         for n in names:
             add(x, 'x("%s")' % n)           # a quoted name inside the list is a literal item, never a selection
-            add(x, "x(%s)" % n)
-            add(x, "x(%s = 1)" % n)
-            add(x, 'x(%s = "s")' % n)
-            add(x, "x(%s())" % n)
-            add(x, "x(%s(bogus = 1))" % n)
+            wn = recvlib.w(n)                # a keyword is written `r#name` as an item
+            add(x, "x(%s)" % wn)
+            add(x, "x(%s = 1)" % wn)
+            add(x, 'x(%s = "s")' % wn)
+            add(x, "x(%s())" % wn)
+            add(x, "x(%s(bogus = 1))" % wn)
         for _ in range(4):
             k = rng.choice([2, 2, 3, 3, 4])
-            add(x, "x(%s)" % ", ".join(rng.choice(names) for _ in range(k)))
+            add(x, "x(%s)" % ", ".join(recvlib.w(rng.choice(names)) for _ in range(k)))
         # receiver-directed: a mistake-free input for each reachable variant, then mutated
         for _ in range(per):
             src = recvlib.gen_recv_item(rng, x, "x")
